@@ -504,6 +504,11 @@ class Input(object):
         """
 
         if self.script_type == 'coinbase':
+            if self.output_n_int != 0xffffffff:
+                # A coinbase input refers to output 0xffffffff of transaction 0000..00, anything else is an input with
+                # a zeroed transaction id
+                _logger.info("Input %d has an empty previous transaction id but is no coinbase input" % self.index_n)
+                return False
             self.valid = True
             return True
         if not self.signatures:
